@@ -430,13 +430,38 @@ theorem gen_PairsEqual (w : PyVal) (q : V) : toR (sat_PairsEqual (.py w) q) = Ru
   · have hl' : isList w = false := by simpa using hl
     cases w <;> simp_all [sat_PairsEqual, isinstanceM, isList, Rule.eval]
 
+/-! ### the two rules that lean on libraries -/
+
+/-- **`RegexMatch.satisfied`**: `bool(self.regex.match(str(what)))` is the model's `evalRegex` (the compiled pattern stands for its
+pattern text; what `re` does with it is `Model/Regex.lean`, compared differentially) -/
+theorem gen_RegexMatch (pat : List Char) (w : PyVal) (q : V) :
+    toR (sat_RegexMatch (.py (.str pat)) (.py w) q) = Rule.eval (.regexMatch pat) w Option.none := by
+  simp only [sat_RegexMatch, pure_ok, strPyM, bindM_ok, Rule.eval, Rule.evalRegex]
+  cases hs : pyStr w with
+  | none => simp [reMatchM, raiseM, bindM, callBool, toR, Except.map]
+  | some s =>
+    simp only [bindM_ok, reMatchM]
+    cases hp : parsePattern (Rule.stripAnchors pat).1 <;> simp [hp, raiseM, bindM, callBool, toR, truth, truthy, Except.map]
+
+/-- **`CIDR.satisfied`**: not a string: false; an address or a network `ipaddress` refuses: false; otherwise containment -/
+theorem gen_CIDR (c w : PyVal) (q : V) :
+    toR (sat_CIDR (.py c) (.py w) q) = Rule.eval (.cidr c) w Option.none := by
+  simp only [sat_CIDR, pure_ok, Rule.eval, Rule.evalCidr]
+  cases w <;> simp [isinstanceM, isStr, truth, truthy, toR, Except.map]
+  case str a =>
+    cases c <;> simp [ipInNetM]
+    all_goals (cases hp : Cidr.parseAddr a <;> simp [hp, toR, truth, truthy, Except.map])
+    case str.some n v =>
+      cases hn : Cidr.parseNet n <;> simp [hn, toR, truth, truthy, Except.map]
+
 /-- what was translated in this run is what the theorems above cover -/
 theorem translated_covers :
     translated.map Prod.fst = ["operator.Eq", "operator.NotEq", "operator.Greater", "operator.Less", "operator.GreaterOrEqual",
       "operator.LessOrEqual", "list.In", "list.NotIn", "list.AllIn", "list.AllNotIn", "list.AnyIn", "list.AnyNotIn",
       "logic.Truthy", "logic.Falsy", "logic.And", "logic.Or", "logic.Not", "logic.Any", "logic.Neither", "string.Equal",
-      "string.PairsEqual", "string.StartsWith", "string.EndsWith", "string.Contains", "inquiry.SubjectEqual",
-      "inquiry.ActionEqual", "inquiry.ResourceIn", "inquiry.SubjectMatch", "inquiry.ActionMatch", "inquiry.ResourceMatch"] := by
+      "string.PairsEqual", "string.RegexMatch", "string.StartsWith", "string.EndsWith", "string.Contains", "inquiry.SubjectEqual",
+      "inquiry.ActionEqual", "inquiry.ResourceIn", "inquiry.SubjectMatch", "inquiry.ActionMatch", "inquiry.ResourceMatch",
+      "net.CIDR"] := by
   decide
 
 end Vakt.GenEquiv
